@@ -97,6 +97,8 @@ impl St {
     }
 }
 
+const MALFORMED: &[&str] = &["\"abc", "\"abc\\\"", "\"", "[1,2", "{\"a\":", "[1,]", "nul", "\"\\ud800\"", "[\"x\",{\"k\":[1,2,\"unterminated", "{\"a\":[tru", "]", "[1 2]", "{\"a\" 1}", "\"a\\", "[[[[[[", "1e999", "-", "{\"k\":\"v\",}", "\"tab\there\""];
+
 fn big_doc() -> String {
     // > 3 MB of nodes: TlsBuf::MAX_TLS_SIZE is 3 MB / size_of::<Value>() nodes; the estimate is
     // json_len / 2 + 2 nodes, so a text above 6 MB / 16 * ... is needed: use ~1.2 M elements
@@ -117,7 +119,7 @@ fn run_history(case: &[u8], allow_threads: bool, allow_big: bool) -> Result<(boo
     let mut st = St { hs: (0..8).map(|_| None).collect(), log: Vec::new(), nontrivial: false, dropped_roots: Vec::new() };
     let nops = 2 + src.below(30);
     for _ in 0..nops {
-        let op = src.below(16);
+        let op = src.below(19);
         let live = st.live();
         let pick = |src: &mut Src, live: &Vec<usize>| -> Option<usize> { if live.is_empty() { None } else { Some(live[src.below(live.len())]) } };
         let name: String;
@@ -299,6 +301,53 @@ fn run_history(case: &[u8], allow_threads: bool, allow_big: bool) -> Result<(boo
                 let Some(a) = pick(&mut src, &live) else { continue };
                 name = format!("drop holder {a}");
                 st.drop_holder(a);
+            }
+            15 | 16 => {
+                // several values through one deserializer, then a malformed later value: the
+                // values handed out before the error must stay intact
+                let d1 = DOCS[src.below(DOCS.len())];
+                let d2 = DOCS[src.below(DOCS.len())];
+                let bad = *src.pick(MALFORMED);
+                let text = format!("0 {d1} {d2} {bad}");
+                name = format!("deserializer: two values then malformed {bad:?}");
+                let (a, b) = if op == 15 {
+                    let mut de = Deserializer::from_str(&text);
+                    let _z: Value = de.deserialize().unwrap();
+                    let a: Value = de.deserialize().unwrap();
+                    let b: Value = de.deserialize().unwrap();
+                    let e: Result<Value, _> = de.deserialize();
+                    ensure!(e.is_err(), "C16/accepts-malformed", "malformed stream value {bad:?} accepted");
+                    // a further attempt after the error must not disturb the earlier values either
+                    let _ = de.deserialize::<Value>();
+                    (a, b)
+                } else {
+                    let mut it = Deserializer::from_str(&text).into_stream::<Value>();
+                    let _z = it.next();
+                    let a = it.next().unwrap().unwrap();
+                    let b = it.next().unwrap().unwrap();
+                    ensure!(matches!(it.next(), Some(Err(_))), "C16/accepts-malformed", "malformed stream value {bad:?} accepted");
+                    let _ = it.next();
+                    (a, b)
+                };
+                let r = st.put(a, model_of(d1), usize::MAX);
+                st.put(b, model_of(d2), r.unwrap_or(usize::MAX));
+                // parse something valid afterwards on the same thread (reuses freed memory)
+                let v: Value = sonic_rs::from_str(DOCS[1]).unwrap();
+                drop(v);
+            }
+            17 | 18 => {
+                // failed parses of every kind must release everything they allocated
+                let bad = *src.pick(MALFORMED);
+                name = format!("failed parses of {bad:?}");
+                ensure!(sonic_rs::from_str::<Value>(bad).is_err(), "C16/accepts-malformed", "malformed {bad:?} accepted");
+                ensure!(sonic_rs::from_slice::<Value>(bad.as_bytes()).is_err(), "C16/accepts-malformed", "malformed {bad:?} accepted");
+                let padded = format!("  {bad}");
+                ensure!(sonic_rs::from_str::<Value>(&padded).is_err(), "C16/accepts-malformed", "malformed {bad:?} accepted");
+                let wrapped = format!("{{\"a\":{bad}");
+                ensure!(sonic_rs::from_str::<Many>(&wrapped).is_err(), "C16/accepts-malformed", "malformed {bad:?} accepted in a struct");
+                let _ = sonic_rs::from_str::<Vec<Value>>(&format!("[{},{bad}]", DOCS[0]));
+                let _ = sonic_rs::from_str::<sonic_rs::OwnedLazyValue>(bad);
+                let _ = Deserializer::from_str(bad).deserialize::<Value>();
             }
             13 if allow_threads => {
                 // hand a holder to another thread: read it there; drop it there or send it back
